@@ -107,14 +107,17 @@ func (s *state) removeTorrent(h core.InfoHash, err error) {
 	if !ctrl.dispatcher.Complete() {
 		ctrl.dispatcher.TearDown()
 		s.announceQueue.Eject(h)
-		for _, errc := range ctrl.errors {
-			errc <- err
-		}
 		s.sched.netevents.Produce(networkevent.TorrentCancelledEvent(h, s.sched.pctx.PeerID))
 		if err := s.sched.torrentArchive.DeleteTorrent(ctrl.dispatcher.Digest()); err != nil {
 			s.sched.log().Errorf("Error deleting torrent from archive: %s", err)
 		}
 	}
+	// Clients may still be waiting on a complete torrent: its completion event
+	// is sent asynchronously and may not have been applied yet.
+	for _, errc := range ctrl.errors {
+		errc <- err
+	}
+	ctrl.errors = nil
 	delete(s.torrentControls, h)
 }
 
